@@ -141,7 +141,7 @@ def run_items(items, jobs=None):
     tree_key()
     # prune caches of other trees
     cdir = os.path.join(VERIF, ".cache")
-    if os.path.isdir(cdir):
+    if os.path.isdir(cdir) and not os.environ.get("SYMJNP_NO_CACHE"):
         import shutil
         for d in os.listdir(cdir):
             if d != tree_key():
@@ -208,6 +208,20 @@ def check(prop, tier="quick", seed=0):
         path = RP.write_replay(prop, o, seed=seed)
         tail = "" if RP.last_confirmed(path) else " no-failing-input-found"
         vio_lines.append(f"VIOLATION property={prop} replay={path} obligation=\"{o['name']}\"{tail}")
+    # tool limits (code outside the modelled subset): bounded stand-in -- the native battery of the same harness on the
+    # real code; a native disagreement with the spec is a violation with a replayable input, a pass proves nothing
+    standins = []
+    for r in errors[:12]:
+        if r["kind"] != "contract":
+            continue
+        ob = {"name": f"{r['name']}[{r['label']}]::bounded stand-in (symbolic execution hit a tool limit: {r['error'].splitlines()[0][:120]})",
+              "kind": "bounded", "item": f"{r['name']}[{r['label']}]", "model": None, "backend": "native battery (real jax, float64)", "smt2": r["error"][:4000]}
+        path = RP.write_replay(prop, ob, seed=seed)
+        ok = RP.last_confirmed(path)
+        standins.append({"item": ob["item"], "native_failure_found": ok, "replay": path})
+        if ok:
+            violations.append(ob)
+            vio_lines.append(f"VIOLATION property={prop} replay={path} obligation=\"{ob['name']}\"")
     for ln in lines + vio_lines:
         print(ln)
     funcs = {}
@@ -246,6 +260,7 @@ def check(prop, tier="quick", seed=0):
             "tree_key": tree_key(),
             "refuted": len(refuted), "undecided": len(unknown), "tool_errors": len(errors),
             "known_findings_reported": sorted(known_hits),
+            "bounded_standins": standins,
             "vacuity_guards": sum(1 for o in obligations if o["kind"] == "vacuity"),
             "solver_time_s": round(sum(r.get("solver_s", 0) for r in results), 2),
             "by_kind": _count_by(obligations, "kind"),
@@ -256,8 +271,9 @@ def check(prop, tier="quick", seed=0):
         "wall_s": round(time.time() - t0, 2),
         "violations": len(violations),
     }
-    os.makedirs(os.path.join(VERIF, "evidence"), exist_ok=True)
-    json.dump(ev, open(os.path.join(VERIF, "evidence", f"{prop}.json"), "w"), indent=1, default=str)
+    evdir = os.environ.get("SYMJNP_EVIDENCE_DIR") or os.path.join(VERIF, "evidence")  # (override: runs on scratch copies)
+    os.makedirs(evdir, exist_ok=True)
+    json.dump(ev, open(os.path.join(evdir, f"{prop}.json"), "w"), indent=1, default=str)
     print(f"{prop}: items={len(items)} obligations={n_ob} discharged={len(discharged)} refuted={len(refuted)} "
           f"(known={sum(len(v[1]) for v in known_hits.values())}) undecided={len(unknown)} errors={len(errors)} wall={time.time() - t0:.1f}s")
     if violations:
